@@ -44,7 +44,7 @@ def layout(idx, nrec):
     """Text layout of the input, rotating with the case index."""
     return {"w": WIDTHS[idx % len(WIDTHS)], "nl": bool((idx // 8) % 2), "desc": (idx // 16) % len(DESCS),
             "split": bool((idx // 3) % 2) and nrec > 1, "compiled": bool((idx // 5) % 2),
-            "arg": ["str", "list", "tuple"][(idx // 7) % 3], "name": (idx // 2) % len(NAMES)}
+            "arg": ["str", "list", "tuple"][(idx // 7) % 3], "name": (idx // 2) % len(NAMES), "dupname": bool(idx % 9 == 4)}
 
 
 def make_case(idx, seqs, enz, reverse, concat, seed):
@@ -58,6 +58,9 @@ def names_of(case):
     out = []
     for j in range(len(case["seqs"])):
         out.append(pat % ((j + 1, j + 1) if pat.count("%") == 2 else (j + 1)))
+    if case["layout"].get("dupname") and len(out) >= 2 and case["seqs"][-1] != case["seqs"][0]:
+        out[-1] = out[0]          # the same accession again with ANOTHER sequence (a proteome entry and its mature chain
+        #                           in a contaminants list): still two records, each with its own decoy
     return out
 
 
